@@ -48,7 +48,7 @@ PROPS["C20"] = dict(
     require_classes=dict(all=[
         "singleton.overlap_ge2_threads_inside_before_object_exists", "singleton.overlap_all_threads",
         "singleton.some_thread_on_fast_path", "singleton.concurrent_reset", "singleton.ctor_sleep_0",
-        "singleton.k.2", "singleton.k.9_16",
+        "singleton.k.2", "singleton.k.9_16", "singleton.mixed_call_forms",
         "mt.timed.d1_gt_d2", "mt.timed.d2_gt_d1", "mt.forced.child_first", "mt.forced.creator_first",
         "mt.measured.function_ran_before_constructor_returned", "mt.measured.function_ran_after_constructor_returned",
         "mt.observer_thread", "mt.join_by_destructor", "mt.nonblocking_function",
